@@ -54,6 +54,8 @@ structure Cfg where
   reads `_processing`; DESIGN 13.6).  The one-batch limit is then not judged; a due flush timeout must start
   its batch whatever else is in process, and every other clause stays. -/
   overlap : Bool := false
+  /-- gate: the `schedule` of the controller, `(open_at, close_at)` in ns, in the order it was given -/
+  windows : List (Nat × Nat) := []
 deriving Repr
 
 inductive Act
@@ -62,6 +64,7 @@ inductive Act
   | done (id : Nat)                       -- item `id` reaches the downstream sink
   | rdone (id : Nat)                      -- item `id` reaches the reneged-target sink
   | openG | closeG                        -- gate schedule events
+  | copen | cclose                        -- gate: programmatic `open()` / `close()`
   | timeout                               -- batch timeout event
   | bfin (k : Nat)                        -- batch number `k` (in start order) ends
   | deq                                   -- the queue is polled (reneging)
@@ -148,7 +151,15 @@ structure Book where
   reneged : Nat := 0
   lastT : Nat := 0
   started : Bool := false
+  ctlSeen : Bool := false      -- gate: a programmatic open()/close() happened (the schedule no longer decides alone)
 deriving Repr
+
+/-- instant `t` lies in a window of the schedule (`open_at <= t < close_at`) -/
+def covered (ws : List (Nat × Nat)) (t : Nat) : Bool := ws.any fun w => decide (w.1 ≤ t) && decide (t < w.2)
+
+/-- some non-empty window of the schedule meets the stretch `[from, to)` of the clock (`to = none`: for ever) -/
+def windowMeets (ws : List (Nat × Nat)) (frm : Nat) (to : Option Nat) : Bool :=
+  ws.any fun w => decide (w.1 < w.2) && decide (frm < w.2) && (match to with | none => true | some t' => decide (w.1 < t'))
 
 def full (cap : Option Nat) (n : Nat) : Bool :=
   match cap with
@@ -228,6 +239,12 @@ def judgeConveyor (cfg : Cfg) (j : Book) (o : Obs) : Except String Book :=
   | .done id => judgeDone .conveyor j id
   | _ => .error (S "malformed-observation")
 
+/-- the gate opens (no-op when it is open): everything queued is flushed downstream in order -/
+def gateOpens (j : Book) : Book :=
+  if j.isOpen then j
+  else { j with isOpen := true, cycles := j.cycles + 1, finished := j.finished ++ j.waiting.map (·.id),
+                passed := j.passed + j.waiting.length, waiting := [] }
+
 def judgeGate (cfg : Cfg) (j : Book) (o : Obs) : Except String Book :=
   let S := sig .gate
   match o.act with
@@ -250,11 +267,14 @@ def judgeGate (cfg : Cfg) (j : Book) (o : Obs) : Except String Book :=
           else .ok { j' with waiting := j.waiting ++ [⟨id, o.t, none⟩], queuedTotal := j.queuedTotal + 1, accepted := j.accepted + 1 }
         | .rej => if !isFull then .error (S "rejected-with-room") else .ok { j' with refused := id :: j.refused }
         | _ => .error (S "malformed-observation")
-  | .openG =>
-    if j.isOpen then .ok j
-    else .ok { j with isOpen := true, cycles := j.cycles + 1, finished := j.finished ++ j.waiting.map (·.id),
-                      passed := j.passed + j.waiting.length, waiting := [] }
-  | .closeG => .ok { j with isOpen := false }
+  | .openG => .ok (gateOpens j)
+  | .copen => .ok { gateOpens j with ctlSeen := true }
+  | .closeG =>
+    -- a schedule close may leave the gate open only while another window of the schedule covers the instant
+    if o.ctr.head? == some 1 && j.isOpen then
+      if covered cfg.windows o.t then .ok j else .error (S "close-ignored")
+    else .ok { j with isOpen := false }
+  | .cclose => .ok { j with isOpen := false, ctlSeen := true }
   | .done id => judgeDone .gate j id
   | _ => .error (S "malformed-observation")
 
@@ -420,7 +440,12 @@ def strandCheck (cfg : Cfg) (j : Book) (next : Option Nat) : Option String :=
     | .pooled | .reneging =>
       if !j.waiting.isEmpty && decide (n < cfg.limit) then some (sig c "strand/waiting-with-free-capacity") else none
     | .conveyor => none
-    | .gate => if !j.waiting.isEmpty && j.isOpen then some (sig c "strand/waiting-with-free-capacity") else none
+    | .gate =>
+      if !j.waiting.isEmpty && j.isOpen then some (sig c "strand/waiting-with-free-capacity")
+      -- the schedule says open during (part of) the stretch the clock is about to cover, items wait, the gate is shut
+      else if !j.waiting.isEmpty && !j.ctlSeen && windowMeets cfg.windows j.lastT next then
+        some (sig c "strand/closed-inside-open-window")
+      else none
     | .batch =>
       if (n == 0 || cfg.overlap) && decide (cfg.limit ≤ j.waiting.length) then some (sig c "strand/waiting-with-free-capacity")
       else match j.waiting, next with
